@@ -224,6 +224,7 @@ func runC04(c *gen.Ctx) error {
 		c.Do("report", c04In{r.Intn(n), cs})
 	}
 	c04Feedback(c)
+	c04InGen(c)
 	c04LoopGen(c)
 	c04CliGen(c)
 	return nil
